@@ -43,6 +43,10 @@ P = {
   "Static decision for every key, aux value and message of every length: the bytes returned by signSchnorr equal, as terms over SHA-256 transcripts / scalar ring / point module and for both parities of y(R), the BIP-340 Sign algorithm (t = bytes(d) xor H_aux(a); rand = H_nonce(t||px||m); k' = int(rand) mod n, error if 0; R = k'G; k = +-k' by parity; e = int(H_challenge(x(R)||px||m)) mod n; sig = x(R) || (k + e*d)); a signature is returned exactly when k' != 0 and the mandatory self-check (= BIP-340 verification predicate with R = (s - e*d)G) of the produced bytes succeeds; Sign reads exactly 32 aux bytes with io.ReadFull (nil reader replaced), aborting on error; key derivation from an ECDSA key / point negates scalar and point together by the parity of y(d'G) and stores x of that point (rule shared with C13-4).",
   "Byte-for-byte equality with the BIP is decided relative to the abstract operations (SHA-256, k*G, scalar ring), i.e. modulo C01/C02/C05/C06; no test vector is run. Trusted: go/ssa, the checker.",
   "abstract interpretation over go/ssa with SHA-256 transcript terms; term equality with the BIP-340 algorithm; accept-set formulas as normal forms"),
+ "C15": ("other",
+  "Static decision for every message and every tag length: the suite functions fail exactly for the empty tag; their uniform bytes equal, as SHA-256 transcript terms and in both DST cases (<= 255: DST || I2OSP(len,1); > 255: SHA256('H2C-OVERSIZE-DST-' || DST) || 0x20), the blocks b_1[||b_2||b_3] of RFC 9380 5.3.1; NU = map(u[0:48]), RO = map(u[0:48]) + map(u[48:96]); SetUniformBytes = select(ok, identity, (x,y,1)) o IsoMap o MapToCurveSimpleSWU o (OS2IP mod p) with the validity flag set; MapToCurveSimpleSWU equals the 26-step procedure of RFC 9380 F.2 (written out in the checker) in all 16 cases of (exceptional input, gx1 square, sgn0(u), sgn0(y)); IsoMap is the rational map of its 13 literals with the flag [xden != 0 and yden != 0]; the literals read from the source satisfy the polynomial identity that makes the map send E' into y^2 = x^3 + 7 and equal RFC 9380 E.1; Z = -11 non-square with the RFC's criteria, A', B' of section 8.7, c2^2 = -Z; out-of-range output lengths refused.",
+  "Not decided: collision resistance / uniformity (cryptographic). Trusted: C01 (wide reduction, sqrt_ratio, IsOdd = sgn0), C03, crypto/sha256, go/ssa, the checker.",
+  "abstract interpretation over go/ssa with SHA-256 transcript terms; term equality with the RFC procedures; polynomial identities over F_p for the embedded constants"),
  "C16": ("other",
   "DoubleScalarMultBasepointVartime = u1*G + u2*P and MultiScalarMult(Vartime) = sum s_i*P_i decided by abstract interpretation in the Z/n-module domain for list lengths 0..3 with every receiver-among-inputs aliasing, mismatched lengths panic, length 1 delegates to the GLV multiply; a loop-shape rule (loops run j = 0..l-1 touching entry j only) extends the unrolled instances to every length.",
   "Trusted: C03-C05; the extension from lengths 0..3 to all lengths rests on the loop-shape rule; go/ssa; the checker.",
@@ -73,7 +77,7 @@ P = {
   "abstract interpretation over go/ssa against lower-layer specifications; accept-set formulas compared as propositional normal forms"),
 }
 
-CLAIMED = ["C01", "C02", "C03", "C04", "C05", "C06", "C07", "C08", "C09", "C10", "C11", "C12", "C13", "C14", "C16", "C19"]
+CLAIMED = ["C01", "C02", "C03", "C04", "C05", "C06", "C07", "C08", "C09", "C10", "C11", "C12", "C13", "C14", "C15", "C16", "C19"]
 
 REASON_PENDING = "check under construction in this session (see DESIGN.md section 2); not yet claimed"
 
